@@ -3,11 +3,12 @@
 (* C02 trace validation.  Events (ndjson, env TRACE) recorded from the     *)
 (* real interpreter, one per executed statement of a workload:             *)
 (*   [ev |-> "reset"]                                                      *)
-(*   [ev |-> "stmt", s |-> [op, v, w, i], n, r, bytes, growth]             *)
+(*   [ev |-> "stmt", s |-> [op, v, w, i], n, r, bytes, growth, times]      *)
 (*        op     flat | nested | alias | set | set2 | opassign | pop       *)
 (*        n, r   the real size of the collection / number of rows          *)
 (*        bytes  bytes requested from the allocator while it ran           *)
 (*        growth the statement may legitimately grow a buffer (amortised)  *)
+(*        times  1, or m for the bulk statement `for (i <- 1 to m) <step>` *)
 (*   [ev |-> "end"]       the workload is over: check the amortised budget *)
 (* The specification advances the Cow heap model on the same statement and *)
 (* predicts the number of copied element slots.  One-sided bounds:         *)
@@ -22,6 +23,7 @@ Rec == ndJsonDeserialize(IOEnv.TRACE)
 \* eb = bytes per element slot of the collection kind at hand (list 48, dict 128, vector 32, bytes 1):
 \* logged with the event, a property of the build's data layout, not of the protocol
 Slack == 4096
+LoopSlack == 1536       \* interpreter overhead of one loop iteration (measured: 450-850 bytes)
 Bound(c, eb) == 4 * eb * c + Slack
 
 VARIABLES l, heap, vars, used, allowed, maxn
@@ -53,12 +55,24 @@ Next == /\ l <= Len(Rec)
                 [] ev.ev = "stmt" ->
                      LET r == StepRes(ev)
                          ismut == ev.s.op \in Forms
-                     IN /\ IF ~ismut \/ ev.growth \/ ev.bytes <= Bound(r.copied, ev.eb) THEN TRUE
+                         \* a bulk statement (`for (i <- 1 to times) <step>`) is the step taken `times` times: only the
+                         \* first can copy (RepeatIsFree); each iteration may cost the interpreter LoopSlack bytes, and a
+                         \* growing one at most the doublings up to its final size.  It is judged on its own and kept
+                         \* out of the workload's amortised budget, which stays tight for the single statements.
+                         bulk == ev.times > 1
+                         bulkBound == Bound(r.copied, ev.eb) + ev.times * LoopSlack
+                                      + (IF ev.growth THEN 8 * ev.eb * (ev.n + ev.times) ELSE 0)
+                     IN /\ IF ~ismut THEN TRUE
+                           ELSE IF bulk
+                           THEN (IF ev.bytes <= bulkBound THEN TRUE
+                                 ELSE PrintT("MISMATCH " \o ToJson([l |-> l, id |-> ev.id,
+                                        exp |-> [kind |-> "bulk", copied |-> r.copied, bound |-> bulkBound, bytes |-> ev.bytes]])))
+                           ELSE IF ev.growth \/ ev.bytes <= Bound(r.copied, ev.eb) THEN TRUE
                            ELSE PrintT("MISMATCH " \o ToJson([l |-> l, id |-> ev.id,
                                         exp |-> [kind |-> "statement", copied |-> r.copied, bound |-> Bound(r.copied, ev.eb), bytes |-> ev.bytes]]))
                         /\ heap' = r.heap /\ vars' = r.vars
-                        /\ used' = IF ismut THEN used + ev.bytes ELSE used
-                        /\ allowed' = IF ismut THEN allowed + Bound(r.copied, ev.eb) ELSE allowed
+                        /\ used' = IF ismut /\ ~bulk THEN used + ev.bytes ELSE used
+                        /\ allowed' = IF ismut /\ ~bulk THEN allowed + Bound(r.copied, ev.eb) ELSE allowed
                         /\ maxn' = IF ev.n > maxn THEN ev.n ELSE maxn
         /\ l' = l + 1
 Done == l = Len(Rec) + 1 => PrintT("TRACE-END " \o ToString(Len(Rec)))
